@@ -86,7 +86,7 @@ EscChar(ch) == CASE ch = "sq" -> <<"bs", "sq">> [] ch = "nl" -> <<"bs", "n">> []
 RECURSIVE Esc(_)
 Esc(s) == IF s = <<>> THEN <<>> ELSE EscChar(Head(s)) \o Esc(Tail(s))
 
-RECURSIVE Col(_, _, _, _), Body(_, _, _, _), IterFrom(_, _, _, _, _), StrLines(_, _, _), BoolFrom(_, _, _)
+RECURSIVE Col(_, _, _, _), Body(_, _, _, _), IterFrom(_, _, _, _, _), StrLines(_, _, _), BoolFrom(_, _, _), DictFrom(_, _, _, _)
 \* _multiline (:419-437): what = the function handed to it
 Multi(st, what, t, from) ==
    IF st.exc # "none" THEN st
@@ -121,8 +121,17 @@ BoolFrom(st, t, j) ==
    IF j > Len(t.kids) \/ st.exc # "none" THEN st
    ELSE LET s1 == Col(st, t, j, t.kids[j]) IN
         BoolFrom(IF j < Len(t.kids) THEN Out(s1, OpTok(t), FALSE) ELSE s1, t, j + 1)
-Prefix(t) == CASE t.k = "List" -> <<"[">> [] t.k = "Tuple" -> <<"(">> [] OTHER -> <<>>
+\* _colorize_ast_dict (:454-469) over the (key, value) pairs t.kids[j], t.kids[j+1]; the pairs are a LIST
+\* (items = list(zip(keys, values))): _multiline's second call starts again at the first pair
+DictFrom(st, t, j, indent) ==
+   IF j > Len(t.kids) \/ st.exc # "none" THEN st
+   ELSE LET s1 == IF j > 1 THEN Comma(st, indent) ELSE st
+            s2 == IF t.kids[j].k = "NoKey" THEN Out(s1, <<"*", "*">>, FALSE)
+                  ELSE Out(Col(s1, t, j, t.kids[j]), <<":", " ">>, FALSE)
+        IN DictFrom(Col(s2, t, j + 1, t.kids[j + 1]), t, j + 2, indent)
+Prefix(t) == CASE t.k = "List" -> <<"[">> [] t.k = "Tuple" -> <<"(">> [] t.k = "Set" -> <<"s", "e", "t", "(", "[">> [] OTHER -> <<>>
 Suffix(t) == CASE t.k = "List" -> <<"]">>
+               [] t.k = "Set" -> <<"]", ")">>
                [] t.k = "Tuple" -> IF E!FixComma /\ Len(t.kids) = 1 THEN <<",", ")">> ELSE <<")">>
                [] OTHER -> <<>>
 Body(st, what, t, from) ==
@@ -131,6 +140,8 @@ Body(st, what, t, from) ==
                LET s0 == IF Prefix(t) # <<>> THEN Out(st, Prefix(t), FALSE) ELSE st
                    s1 == IterFrom(s0, t, from, from, s0.cp)
                IN IF Suffix(t) # <<>> THEN Out(s1, Suffix(t), FALSE) ELSE s1
+          [] what = "dict" ->
+               LET s0 == Out(st, <<"{">>, FALSE) IN Out(DictFrom(s0, t, 1, s0.cp), <<"}">>, FALSE)
           [] what = "op" ->
                CASE t.k = "Unary" -> Col(Out(st, OpTok(t), FALSE), t, 1, t.kids[1])                     \* :592-606
                  [] t.k = "Bin" -> Col(Out(Col(st, t, 1, t.kids[1]), OpTok(t), FALSE), t, 2, t.kids[2])  \* :608-645
@@ -144,7 +155,8 @@ Col(st, p, i, t) ==
           [] t.k = "Text" -> Out(st, t.op, FALSE)
           [] t.k = "Str" -> ColStr(st, t.op)
           [] t.k \in {"Unary", "Bin", "Bool"} -> OpDelim(st, E!ImplOpParen(p, i, t), t)
-          [] t.k \in {"List", "Tuple"} -> Multi(st, "iter", t, 1)
+          [] t.k \in {"List", "Tuple", "Set"} -> Multi(st, "iter", t, 1)
+          [] t.k = "Dict" -> Multi(st, "dict", t, 1)                                                     \* :568-570
           [] t.k = "Kw" -> Col(Out(Out(st, t.op, FALSE), <<"=">>, FALSE), t, 1, t.kids[1])               \* :582-588
           [] t.k = "Call" ->                                                                              \* :702-711
                LET s1 == Out(Col(st, t, 1, t.kids[1]), <<"(">>, FALSE)
